@@ -85,8 +85,27 @@ def run_case(case):
         shutil.rmtree(d, ignore_errors=True)
 
 
+def linecol_table(texts):
+    """Arpeggio's own Parser.pos_to_linecol on bare texts, every offset 0..len (a parser of the test
+    grammar whose input is set as parse() sets it)."""
+    mm = metamodel_from_str(GRAMMAR_MIN)
+    out = []
+    for t in texts:
+        parser = mm._parser_blueprint.clone()
+        parser.input = t
+        parser.line_ends = []
+        out.append([list(parser.pos_to_linecol(p)) for p in range(len(t) + 1)])
+    return out
+
+
+GRAMMAR_MIN = "Model: 'x';"
+
+
 def main():
     payload = json.load(sys.stdin)
+    if "linecol_texts" in payload:
+        json.dump(linecol_table(payload["linecol_texts"]), sys.stdout)
+        return
     json.dump([run_case(c) for c in payload["cases"]], sys.stdout)
 
 
